@@ -1012,10 +1012,51 @@ func lwShift(c *Ctx, s *Sink, p *packages.Package, ts map[string]*lwType, self *
 // overflowFires evaluates the overflow conditions with the atoms
 // "<un>.w_i != 0" and "<vn>.w_j != 0" true and every other "x != 0" false.
 func (a *lwAnalysis) overflowFires(un string, i int, vn string, j int) bool {
+	// subst: inside a boolean helper of the package read through, its receiver and parameter names stand for the caller's
+	subst := map[string]string{}
 	var ev func(e ast.Expr) (bool, bool)
 	ev = func(e ast.Expr) (bool, bool) {
 		e = ast.Unparen(e)
 		switch x := e.(type) {
+		case *ast.CallExpr:
+			// a one-line boolean helper of the package: `return <condition on the limbs>`
+			f := callee(a.info, x)
+			if f == nil || f.Pkg() == nil || a.c == nil {
+				return false, false
+			}
+			d, _ := a.c.DeclOf(f)
+			if d == nil || d.Body == nil || len(d.Body.List) != 1 {
+				return false, false
+			}
+			r, ok := d.Body.List[0].(*ast.ReturnStmt)
+			if !ok || len(r.Results) != 1 {
+				return false, false
+			}
+			saved := subst
+			subst = map[string]string{}
+			for k, v := range saved {
+				subst[k] = v
+			}
+			name := func(e ast.Expr) string {
+				if id, ok := ast.Unparen(e).(*ast.Ident); ok {
+					if s2, ok := saved[id.Name]; ok {
+						return s2
+					}
+					return id.Name
+				}
+				return ""
+			}
+			if sel, ok := ast.Unparen(x.Fun).(*ast.SelectorExpr); ok && d.Recv != nil && len(d.Recv.List) == 1 && len(d.Recv.List[0].Names) == 1 {
+				subst[d.Recv.List[0].Names[0].Name] = name(sel.X)
+			}
+			for k, prm := range flattenParams(d.Type.Params) {
+				if prm != nil && k < len(x.Args) {
+					subst[prm.Name] = name(x.Args[k])
+				}
+			}
+			v, okv := ev(r.Results[0])
+			subst = saved
+			return v, okv
 		case *ast.BinaryExpr:
 			switch x.Op {
 			case token.LOR:
@@ -1031,7 +1072,11 @@ func (a *lwAnalysis) overflowFires(un string, i int, vn string, j int) bool {
 					return false, false
 				}
 				if o, w, ok := a.fieldWeight(x.X); ok && o != nil {
-					return (o.Name() == un && w == i) || (o.Name() == vn && w == j), true
+					on := o.Name()
+					if s2, ok := subst[on]; ok {
+						on = s2
+					}
+					return (on == un && w == i) || (on == vn && w == j), true
 				}
 				return false, true // a computed word: zero in this scenario
 			}
